@@ -18,6 +18,20 @@ NEEDS = {
     'C13-r7m2': 'symmetric form with 0.25 < frac(R/res) < 0.5 and a point near +R (own count with round())',
     'C14-r7m1': 'one caster, two casts whose origins are different points of the same cell',
     'C14-r7m2': 'an oblique ray that crosses no cell border along one axis (step from the indexes, tMax guarded by the direction)',
+    'C09-r7m1': 'single-precision point types, neighbourhoods with relative eigen-gap in ]1e-6, 3.45e-4] (isotropic fallback)',
+    'C09-r7m2': 'two threads starting estimators on one fresh shared KdTree (lazy index build; outside the quantifier of C09: inputs and configurations only)',
+    'C15-r7m1': '2-D grid, two translations with a Y component and different empty values (cached empty row)',
+    'C15-r7m2': 'access through a Grid<T,DIM>& while an index offset is non-zero (accessors no longer virtual)',
+    'C16-r7m1': 'window sum in precision units reaching 2^31: W >= 22 same-sign samples near the top magnitude (int accumulator)',
+    'C16-r7m2': 'coarse precision / readings jittering by a few quanta (integer division of sum^2 / n)',
+    'C17-r7m1': 'a heartbeat exactly 500000000 ns after the last stamp at an absolute time where the two conversions round apart',
+    'C17-r7m2': 'bursty stream with a period under 1 ms',
+    'C18-r7m1': 'a value bit-exactly on an equal-to acceptance bound',
+    'C18-r7m2': 'an appended report with an info entry whose value is empty (after timeout(), before the first evaluation)',
+    'C19-r7m1': 'a reader calling getVariance() while a writer calls update()',
+    'C19-r7m2': 'a writer assigning an rvalue to a SharedVariable while a reader loads',
+    'C20-r7m1': 'a query point outside a face by less than 1.19e-7, or a box with half-extents around 1e-9',
+    'C20-r7m2': 'a point set with an axis on which every point is negative',
     'C01-r7m1': 'two toECEF results alive together on one converter (result returned by reference to a member buffer)',
     'C01-r7m2': 'longitude exactly 0 (prime meridian, Y == 0) or a Cartesian input with an exact zero X or Y',
     'C02-r7m1': 'anchor, toENU(P), setAnchor(B) without reset(), toENU(P) again (remembered last fix survives re-anchoring)',
